@@ -141,6 +141,29 @@ CHECKS["C06"] = {
     "technique": "Coq proof of escape/unescape inversion + extracted grammar-based reader executed on the implementation's text",
 }
 
+CHECKS["C16"] = {
+    "text": "Proof (Coq) of the dispatch logic over the finite format x destination grid: every destination kind is read "
+            "back by the format's own reader, every other reader rejects it, and prov.read's trial loop — with the registry "
+            "order generated from /repo and, as repaired, every attempt seeing the whole content — returns the right format; "
+            "the pre-repair loop is refuted in the model (XML/TriG on streams -> empty document). The parsers are oracles with "
+            "recorded laws, validated on every run. Tie: the full grid (4 formats x 4 destinations x 10 ways of reading) is "
+            "executed on generated documents with non-ASCII content and compared by strict content (partial: UTF-8 coding "
+            "and file I/O are the runtime's).",
+    "design_ref": "DESIGN.md §5 C16, §10",
+    "technique": "Coq case-split proof of the dispatch + exhaustive grid execution on the implementation",
+}
+CHECKS["C17"] = {
+    "text": "Proof (Coq) over the step model (mkstemp, any number of write calls, close, move; a fault before any step): on "
+            "success the named file holds exactly the concatenated chunks, the temp file is gone and nothing else changes; on "
+            "any fault the call fails, the named file keeps its previous content or stays absent and only the temp file is "
+            "touched; names that are not file: URLs and carry no network location are used verbatim whatever URL syntax they "
+            "contain; network locations write nothing. Tie: the model's destination path vs the file actually written for "
+            "every name; faults injected from outside (k-th write call, the move) with and without a pre-existing file "
+            "(partial: atomicity of os.rename is assumed).",
+    "design_ref": "DESIGN.md §5 C17, §10",
+    "technique": "Coq proof over a file-system step model + fault injection with unittest.mock on the implementation",
+}
+
 NOT_YET = {}
 
 
